@@ -264,18 +264,50 @@ func ruleRequestAdmission(e *Engine, r *Report) {
 		entT := e.Named("raftpb", "Entry")
 		if pend != nil && eq != nil && entT != nil {
 			// the map insert
-			var ins []*ssa.MapUpdate
+			// an insert / delete site is the map operation itself or the call (in propose) of a
+			// same-package helper that performs it; key and value are resolved to the call's arguments
+			type insSite struct {
+				at         ssa.Instruction
+				Key, Value ssa.Value
+			}
+			var ins []insSite
 			var dels []ssa.Instruction
 			forEachInstr(fn, func(in ssa.Instruction) {
 				switch x := in.(type) {
 				case *ssa.MapUpdate:
 					if fieldV(pend)(x.Map) {
-						ins = append(ins, x)
+						ins = append(ins, insSite{in, x.Key, x.Value})
 					}
 				case *ssa.Call:
 					if b, ok := x.Call.Value.(*ssa.Builtin); ok && b.Name() == "delete" && len(x.Call.Args) == 2 && fieldV(pend)(x.Call.Args[0]) {
 						dels = append(dels, in)
+						return
 					}
+					g := x.Call.StaticCallee()
+					if g == nil || len(g.Blocks) == 0 || fnPkg(g) != fnPkg(fn) {
+						return
+					}
+					resolve := func(v ssa.Value) ssa.Value {
+						sv := stripConv(v)
+						for i, p := range g.Params {
+							if sv == ssa.Value(p) && i < len(x.Call.Args) {
+								return x.Call.Args[i]
+							}
+						}
+						return v
+					}
+					forEachInstr(g, func(y ssa.Instruction) {
+						switch z := y.(type) {
+						case *ssa.MapUpdate:
+							if fieldV(pend)(z.Map) {
+								ins = append(ins, insSite{in, resolve(z.Key), resolve(z.Value)})
+							}
+						case *ssa.Call:
+							if b, ok := z.Call.Value.(*ssa.Builtin); ok && b.Name() == "delete" && len(z.Call.Args) == 2 && fieldV(pend)(z.Call.Args[0]) {
+								dels = append(dels, in)
+							}
+						}
+					})
 				}
 			})
 			adds := e.SitesIn(fn, eq)
@@ -285,7 +317,7 @@ func ruleRequestAdmission(e *Engine, r *Report) {
 				mu := ins[0]
 				add := adds[0]
 				// order: registered before queued
-				r.check(dominatesInstr(mu, add.(ssa.Instruction)), rule, "proposalShard.propose registers the request before the entry is queued", e.ipos(mu),
+				r.check(dominatesInstr(mu.at, add.(ssa.Instruction)), rule, "proposalShard.propose registers the request before the entry is queued", e.ipos(mu.at),
 					"insert dominates entryQueue.add", "the entry is queued before the request is registered: the step/apply workers can complete the proposal before the table knows it, and the result is lost")
 				// the queued entry
 				var entVal ssa.Value
@@ -326,7 +358,7 @@ func ruleRequestAdmission(e *Engine, r *Report) {
 				}
 				// the map key is the entry's key
 				ko := originsOf(entField("Key"))
-				r.check(commonOrigin(e.leafOrigins(mu.Key), ko) != "", rule, "proposalShard.propose registers under the queued entry's Key", e.ipos(mu),
+				r.check(commonOrigin(e.leafOrigins(mu.Key), ko) != "", rule, "proposalShard.propose registers under the queued entry's Key", e.ipos(mu.at),
 					"map key and Entry.Key come from the same value", "the request is registered under a key that is not the key of the queued entry: applied/dropped/committed look it up by the entry's key and never find it")
 				// identity of the registered request
 				reqAl := rootAlloc(mu.Value)
@@ -460,9 +492,25 @@ func (e *Engine) srcPred(fn *ssa.Function, s src) (func(ssa.Value) bool, string,
 		}
 		return func(v ssa.Value) bool { return fieldV(f)(v) }, s.b + "." + s.c, true
 	case "param":
+		// the parameter of that name, or - when the parameters were packed into a struct - the field
+		// of that name of a struct-typed parameter
 		return func(v ssa.Value) bool {
-			p, ok := v.(*ssa.Parameter)
-			return ok && p.Name() == s.a
+			if p, ok := v.(*ssa.Parameter); ok {
+				return p.Name() == s.a
+			}
+			if f, base, ok := loadedField(v); ok && f.Name() == s.a {
+				if _, isP := stripConv(base).(*ssa.Parameter); isP {
+					return true
+				}
+				if al := rootAlloc(base); al != nil {
+					for _, sv := range storesInto(al) {
+						if _, isP := stripConv(sv).(*ssa.Parameter); isP {
+							return true
+						}
+					}
+				}
+			}
+			return false
 		}, "parameter " + s.a, true
 	case "const":
 		c := e.Const(s.a, s.b)
